@@ -4,6 +4,7 @@ package workers
 import (
 	"context"
 	"strconv"
+	"sync"
 	"sync/atomic"
 
 	"github.com/form3tech-oss/f1/v2/internal/metrics"
@@ -44,6 +45,16 @@ func c02RunFn(s *ActiveScenario, state *iterationState) {
 }
 
 func c02DroppedFn(s *ActiveScenario) { c02Dropped.Add(1) }
+
+// wrapper around sync.Cond.Wait: a worker must never go to sleep while work is pending and the pool is running
+// (it would miss it until the next tick: fewer than `concurrency` workers usable). The ghost reads happen with the
+// pool lock held, immediately before Wait releases it.
+func c02CondWait(c *sync.Cond) {
+	pending := c02Pool.jobsToExecute.num.Load()
+	stopped := c02Pool.stopWorkers.Load()
+	zz.Assert("C04.worker_never_parks_with_pending_work", pending <= 0 || stopped)
+	c.Wait()
+}
 
 // wrapper around the real NextIteration: records what was granted
 func c02NextIteration(m *PoolManager) (uint64, error) {
@@ -153,6 +164,7 @@ func c02Scenario(cfg c02Config) {
 //verif:unroll 3
 //verif:timeout 300
 //verif:replace (*$M/internal/workers.ActiveScenario).Run c02RunFn
+//verif:replace (*sync.Cond).Wait c02CondWait
 //verif:replace (*$M/internal/workers.ActiveScenario).RecordDroppedIteration c02DroppedFn
 //verif:replace (*$M/internal/workers.PoolManager).NextIteration c02NextIteration
 func VerifC02_OneWorker() { c02Scenario(c02Config{workers: 1, ticks: 2, nmax: 2, maxLimit: 2}) }
@@ -164,6 +176,7 @@ func VerifC02_OneWorker() { c02Scenario(c02Config{workers: 1, ticks: 2, nmax: 2,
 //verif:timeout 600
 //verif:tier thorough
 //verif:replace (*$M/internal/workers.ActiveScenario).Run c02RunFn
+//verif:replace (*sync.Cond).Wait c02CondWait
 //verif:replace (*$M/internal/workers.ActiveScenario).RecordDroppedIteration c02DroppedFn
 //verif:replace (*$M/internal/workers.PoolManager).NextIteration c02NextIteration
 func VerifC02_TwoWorkers() { c02Scenario(c02Config{workers: 2, ticks: 2, nmax: 2, maxLimit: 2}) }
@@ -177,6 +190,7 @@ func VerifC02_TwoWorkers() { c02Scenario(c02Config{workers: 2, ticks: 2, nmax: 2
 //verif:unroll 3
 //verif:timeout 300
 //verif:replace (*$M/internal/workers.ActiveScenario).Run c02RunFn
+//verif:replace (*sync.Cond).Wait c02CondWait
 //verif:replace (*$M/internal/workers.ActiveScenario).RecordDroppedIteration c02DroppedFn
 //verif:replace (*$M/internal/workers.PoolManager).NextIteration c02NextIteration
 func VerifC03_TriggerPoolIds() { c02Scenario(c02Config{workers: 1, ticks: 2, nmax: 2, maxLimit: 2}) }
@@ -188,6 +202,7 @@ func VerifC03_TriggerPoolIds() { c02Scenario(c02Config{workers: 1, ticks: 2, nma
 //verif:unroll 3
 //verif:timeout 600
 //verif:replace (*$M/internal/workers.ActiveScenario).Run c02RunFn
+//verif:replace (*sync.Cond).Wait c02CondWait
 //verif:replace (*$M/internal/workers.ActiveScenario).RecordDroppedIteration c02DroppedFn
 //verif:replace (*$M/internal/workers.PoolManager).NextIteration c02NextIteration
 func VerifC04_TriggerPoolConcurrency() {
@@ -225,6 +240,7 @@ func c02Continuous(workers int, maxLimit uint64) {
 //verif:unroll 3
 //verif:timeout 600
 //verif:replace (*$M/internal/workers.ActiveScenario).Run c02RunFn
+//verif:replace (*sync.Cond).Wait c02CondWait
 //verif:replace (*$M/internal/workers.PoolManager).NextIteration c02NextIteration
 func VerifC03_ContinuousPool() { c02Continuous(2, 3) }
 
@@ -234,6 +250,7 @@ func VerifC03_ContinuousPool() { c02Continuous(2, 3) }
 //verif:unroll 3
 //verif:timeout 600
 //verif:replace (*$M/internal/workers.ActiveScenario).Run c02RunFn
+//verif:replace (*sync.Cond).Wait c02CondWait
 //verif:replace (*$M/internal/workers.PoolManager).NextIteration c02NextIteration
 func VerifC04_ContinuousPool() { c02Continuous(2, 0) }
 
@@ -245,6 +262,7 @@ func VerifC04_ContinuousPool() { c02Continuous(2, 0) }
 //verif:unroll 3
 //verif:timeout 300
 //verif:replace (*$M/internal/workers.ActiveScenario).Run c02RunFn
+//verif:replace (*sync.Cond).Wait c02CondWait
 //verif:replace (*$M/internal/workers.ActiveScenario).RecordDroppedIteration c02DroppedFn
 //verif:replace (*$M/internal/workers.PoolManager).NextIteration c02NextIteration
 func VerifC05_PoolShutdown() { c02Scenario(c02Config{workers: 1, ticks: 2, nmax: 2, maxLimit: 2}) }
